@@ -1318,6 +1318,15 @@ theorem C03_undeclared_enum_element_detected {F} (env : Env F) (hcfg : env.lex.c
     ElemRdS env ty { tok := 46 :: (name ++ [46]), before := before, after := after, v := .atom .unset } .warning :=
   ElemRdS.enum_undeclared env hcfg hagg ty het name hne hname hfind before after hb ha
 
+/-- **dangling or wrong-type reference in an aggregate of entities** (re-export of `ElemRdS.ref_bad`) -/
+theorem C03_bad_reference_element_detected {F} (env : Env F) (hcfg : env.lex.criSkipsComments = true)
+    (hagg : env.cfg.aggrSkipsComments = true) (tg : String) (ds : List Byte) (hne : ds ≠ []) (hds : ds.all isDigit = true)
+    (hhi : ((digitsVal ds 0 : Nat) : Int) ≤ IStream.intMax)
+    (hbad : refLookup env.lookup tg ((digitsVal ds 0 : Nat) : Int) ≠ .found)
+    (before after : List Byte) (hb : Seps before) (ha : Seps after) :
+    ElemRdS env (.entity tg) { tok := 35 :: ds, before := before, after := after, v := .atom .unset } .warning :=
+  ElemRdS.ref_bad env hcfg hagg tg ds hne hds hhi hbad before after hb ha
+
 /-- tie: the source keeps what `CheckRemainingInput` reports behind a `$` (C09's repair is in) -/
 theorem C03_source_dollar_keeps_error : Generated.rwLexCfg.dollarKeepsError = true := by decide
 
